@@ -158,6 +158,7 @@ const (
 	BadOptNil        = 1 // a nil AddOption: ignored by contract
 	BadOptAsNonIface = 2 // godi.As[int](): invalid
 	BadOptBackquote  = 3 // godi.Name with a backquote: invalid
+	BadOptAsAnyVoid  = 4 // godi.As[any]() on a function that returns nothing (only generated for those): there is no value to provide under an interface - invalid
 )
 
 // InvalidOptions reports whether the option combination must be rejected.
@@ -169,7 +170,7 @@ func (r Reg) InvalidOptions() bool {
 			}
 		}
 	}
-	return (r.Name != "" && r.Group != "") || r.BadOpt == BadOptAsNonIface || r.BadOpt == BadOptBackquote
+	return (r.Name != "" && r.Group != "") || r.BadOpt == BadOptAsNonIface || r.BadOpt == BadOptBackquote || (r.BadOpt == BadOptAsAnyVoid && r.Form == FormVoid)
 }
 
 func (r Reg) String() string {
